@@ -347,13 +347,14 @@ class Response(_SansIOResponse):
         .. versionadded:: 0.6
         """
         if not self.is_sequence:
-            # if we consume an iterable we have to ensure that the close
-            # method of the iterable is called if available when we tear
-            # down the response
             close = getattr(self.response, "close", None)
             self.response = list(self.iter_encoded())
             if close is not None:
-                self.call_on_close(close)
+                # The iterable was consumed and is no longer referenced,
+                # so nothing else will close it. Keeping its close method
+                # in the close callbacks instead would make the response
+                # unpicklable even after freeze().
+                close()
 
     def iter_encoded(self) -> t.Iterator[bytes]:
         """Iter the response encoded with the encoding of the response.
